@@ -1425,6 +1425,8 @@ func monitor(c Case, r result) (vs []core.Violation) {
 	accepted := map[uint64]int{}
 	lastRank := map[string]int{}
 	lastLsn := map[string]uint64{}
+	accRank := map[string]int{}
+	accLsn := map[string]uint64{}
 	txnKey := map[int]string{}
 	for _, e := range r.Log {
 		switch e.K {
@@ -1568,6 +1570,31 @@ func monitor(c Case, r result) (vs []core.Violation) {
 			for _, rc := range recsOf[*e.Call] {
 				if rc.Bad == "" {
 					accepted[rc.Lsn]++
+				}
+				// C05 at the moment of ACCEPTANCE: per partition key (partition routing; one worker without
+				// partitioning: the whole stream) the sink accepts in delivery order.  Two requests of one key
+				// in flight at once (the later one accepted while the earlier one is held) is how a routing
+				// fault shows when the submission order alone still looks right.
+				if rc.Bad != "" || !undisturbed || !ordered {
+					continue
+				}
+				wh := at[rc.Lsn]
+				key := ""
+				switch c.Method {
+				case "tablename":
+					key = wh.ch.Table
+				case "transaction":
+					key = c.Txns[wh.txn].Xid
+				case "transaction-bucket":
+					key = rc.PK // the bucket as seen on the wire
+					if c.Sink != "" {
+						key = strconv.Itoa(bucketOf(c.Txns[wh.txn].Xid, c.Buckets))
+					}
+				}
+				if pr, ok := accRank[key]; ok && wh.rank < pr {
+					add("C05", "app/sink-accept-order-violated-for-a-partition-key", fmt.Sprintf("key %q: the change at %s was accepted by the sink (call %d) after the change at %s, which PostgreSQL delivered later", key, X(rc.Lsn), *e.Call, X(accLsn[key])))
+				} else {
+					accRank[key], accLsn[key] = wh.rank, rc.Lsn
 				}
 			}
 		case "ack":
@@ -1720,7 +1747,8 @@ func genStream(rng *rand.Rand, c *Case, nt int, maxChanges int) {
 }
 
 // bucketOf is what utils.QuickHash computes for partition method transaction-bucket.  Used by the
-// GENERATOR only, to choose transaction ids that land in chosen buckets; no monitor uses it.
+// generator to choose transaction ids that land in chosen buckets, and by the C05 monitors for the S3 sink
+// (no partition key on that wire); for Kinesis the monitors use the key seen on the wire.
 func bucketOf(xid string, n int) int { return int(crc32.ChecksumIEEE([]byte(xid))) % n }
 
 // stallShape: an earlier committed transaction A whose batch is held by a slow worker while the batch
